@@ -41,7 +41,7 @@ def checks_for(fn):
 
 
 def sh(cmd, cwd=None, timeout=600):
-    return subprocess.run(cmd, cwd=cwd, env=ENV, capture_output=True, text=True, timeout=timeout)
+    return subprocess.run(cmd, cwd=cwd, env=ENV, capture_output=True, text=True, errors="replace", timeout=timeout)
 
 
 def gen(outdir):
